@@ -163,11 +163,15 @@ func (b *Bin) WaitListening(addr string, d time.Duration) error {
 			return fmt.Errorf("process exited: %v; stderr: %s", b.waitEr, b.Stderr())
 		default:
 		}
-		c, err := net.DialTimeout("tcp", addr, 200*time.Millisecond)
-		if err == nil {
-			_ = c.Close()
-			b.Addr = addr
-			return nil
+		// the port must be held by *this* process: with parallel shards another server may have
+		// taken the port between FreePort and our bind (then ours exits with "address in use")
+		if _, port, err := net.SplitHostPort(addr); err == nil && pidListensOn(b.Cmd.Process.Pid, port) {
+			c, err := net.DialTimeout("tcp", addr, 500*time.Millisecond)
+			if err == nil {
+				_ = c.Close()
+				b.Addr = addr
+				return nil
+			}
 		}
 		time.Sleep(15 * time.Millisecond)
 	}
@@ -250,6 +254,41 @@ func (b *Bin) FDTargets() []string {
 		}
 	}
 	return out
+}
+
+// pidListensOn: does a listening TCP socket on the port belong to the process (Linux /proc)?
+func pidListensOn(pid int, port string) bool {
+	var pn int
+	fmt.Sscanf(port, "%d", &pn)
+	hexPort := fmt.Sprintf(":%04X", pn)
+	inodes := map[string]bool{}
+	for _, f := range []string{"/proc/net/tcp", "/proc/net/tcp6"} {
+		data, err := os.ReadFile(f)
+		if err != nil {
+			continue
+		}
+		for _, line := range strings.Split(string(data), "\n")[1:] {
+			fs := strings.Fields(line)
+			if len(fs) > 9 && strings.HasSuffix(fs[1], hexPort) && fs[3] == "0A" {
+				inodes[fs[9]] = true
+			}
+		}
+	}
+	if len(inodes) == 0 {
+		return false
+	}
+	dir := fmt.Sprintf("/proc/%d/fd", pid)
+	ents, err := os.ReadDir(dir)
+	if err != nil {
+		return false
+	}
+	for _, e := range ents {
+		l, err := os.Readlink(filepath.Join(dir, e.Name()))
+		if err == nil && strings.HasPrefix(l, "socket:[") && inodes[strings.TrimSuffix(strings.TrimPrefix(l, "socket:["), "]")] {
+			return true
+		}
+	}
+	return false
 }
 
 // FreePort picks a currently free loopback port.
